@@ -174,3 +174,36 @@ Definition check16 (c : cinput * list cobs) : bool * bool * nat :=
   let '(i, o) := c in (agree i o, ok16 [] (ci_ops i) o, 0).
 Definition check17 (c : cinput * list cobs) : bool * bool * nat :=
   let '(i, o) := c in (agree i o, ok17 (ci_fns i) (ci_log i) [] false (ci_ops i) o, 0).
+
+(* ---- typed upcasters (RegisterUpcast[From,To]): payloads abstracted to their fields ---- *)
+Record pl := { p_bad : bool;                 (* data does not decode into the source type *)
+               p_x : nat; p_note : nat;      (* note: 0 = field absent *)
+               p_tags : list (nat * nat) }.
+
+Definition tbeh (f : fnid) (p : pl) : option (pl * name) :=
+  if p_bad p then None else
+  match f with
+  | 1 => Some ({| p_bad := false; p_x := p_x p + 1; p_note := p_note p; p_tags := p_tags p |}, 2)
+  | 2 => Some ({| p_bad := false; p_x := 2 * p_x p; p_note := p_note p; p_tags := p_tags p |}, 3)
+  | 3 => Some ({| p_bad := false; p_x := p_x p + 100; p_note := p_note p; p_tags := p_tags p |}, 3)
+  | _ => None
+  end.
+
+Record tinput := { ti_regs : list (name * name * fnid); ti_log : list (name * pl) }.
+
+Definition pair_eqb (a b : nat * nat) : bool := Nat.eqb (fst a) (fst b) && Nat.eqb (snd a) (snd b).
+Definition pl_eqb (a b : pl) : bool :=
+  Bool.eqb (p_bad a) (p_bad b) &&
+  (p_bad a || (Nat.eqb (p_x a) (p_x b) && Nat.eqb (p_note a) (p_note b) && list_eqb pair_eqb (p_tags a) (p_tags b))).
+
+Definition trun (i : tinput) : list (name * pl) :=
+  let g := fold_left (fun g r => let '(a, b, f) := r in fst (register g a b f)) (ti_regs i) [] in
+  map (fun e => let '(e', _) := upcast_event tbeh g {| s_off := 0; s_ty := fst e; s_data := snd e; s_ts := 0 |} in
+                (s_ty e', s_data e')) (ti_log i).
+
+Definition tagree (i : tinput) (o : list (name * pl)) : bool :=
+  list_eqb (fun a b => Nat.eqb (fst a) (fst b) && pl_eqb (snd a) (snd b)) (trun i) o.
+
+(* for typed upcasters the model run *is* the specification (apply = chain, typed = encode.f.decode) *)
+Definition check17t (c : tinput * list (name * pl)) : bool * bool * nat :=
+  let '(i, o) := c in (tagree i o, tagree i o, 0).
